@@ -113,6 +113,28 @@ func TestFastSyncedNodeServesDiffs(t *testing.T) {
 		b := start("B", sim.CopyDB(early))
 		c := start("C", sim.CopyDB(early))
 		from, to := b.Head().Height()+1, a.Head().Height()
+		// The harness can certify a block only with keys it owns. When an address outside the actor set is the only
+		// online validator (a pool around a fresh address), no certificate exists for that round: the served range ends
+		// before the first block that needs one, and at a block that has one.
+		for hh := from; hh <= to; hh++ {
+			hdr := a.Chain.GetBlockHeaderByHeight(hh)
+			if hdr == nil {
+				t.Fatalf("A has no header at %d", hh)
+			}
+			needs := hdr.Flags().HasFlag(types.IdentityUpdate|types.Snapshot|types.NewGenesis) || hdr.ProposedHeader != nil && hdr.ProposedHeader.Upgrade > 0
+			if needs && certs[hdr.Hash()].Empty() {
+				to = hh - 1
+				evid.Count("serve.range_ends_before_uncertifiable_block")
+				break
+			}
+		}
+		for to >= from && certs[a.Chain.GetBlockHeaderByHeight(to).Hash()].Empty() {
+			to--
+		}
+		if to < from {
+			evid.Count("serve.no_certifiable_range")
+			return
+		}
 		// what A serves (provideBlocks): header, certificate, stored diff
 		r := &protocol.VerifBlockRange{BatchId: 1}
 		var want []*state.IdentityStateDiff
@@ -157,7 +179,7 @@ func TestFastSyncedNodeServesDiffs(t *testing.T) {
 		}
 		ks := keystore.NewKeyStore(tmp+"/ks-serve", keystore.StandardScryptN, keystore.StandardScryptP)
 		subs, _ := subscriptions.NewManager(tmp + "/subs-serve")
-		fs := protocol.NewFastSync(g.h, log.New(), b.Chain, b.Ipfs, b.AppState, mapset.NewSet(), &snapshot.Manifest{Height: to, Root: a.Head().Root()}, nil, b.Bus, b.Addr, ks, subs, n.upgrader)
+		fs := protocol.NewFastSync(g.h, log.New(), b.Chain, b.Ipfs, b.AppState, mapset.NewSet(), &snapshot.Manifest{Height: to, Root: a.Chain.GetBlockHeaderByHeight(to).Root()}, nil, b.Bus, b.Addr, ks, subs, n.upgrader)
 		if _, err := fs.VerifC12PreConsuming(b.Head()); err != nil {
 			t.Fatalf("preConsuming: %v", err)
 		}
